@@ -157,12 +157,12 @@ package crypto
 
 //@ func randFr mode int props C06 C09
 //@ requires x != nil && rand != nil
-//@ assigns *x, obj(rand)
+//@ assigns *x, ghost(rand)
 
 //@ func randFrStar mode int props C06 C09
 //@ requires x != nil && rand != nil
-//@ assigns *x, obj(rand)
-//@ loop 1 assigns *x, obj(rand)
+//@ assigns *x, ghost(rand)
+//@ loop 1 assigns *x, ghost(rand)
 
 //@ func mapToFr mode int props C12 C09
 //@ requires x != nil && len(src) >= 1
@@ -176,8 +176,7 @@ package crypto
 //@ loop 1 invariant [i] 1 <= i && i <= degree
 //@ loop 1 invariant [a] len(a) == degree+1 && fresh(a)
 //@ loop 1 invariant [prg] prg != nil && fresh(prg)
-//@ loop 1 invariant [sep] obj(prg.genericPRG.randCore) != obj(a)
-//@ loop 1 assigns a[:], obj(prg), obj(prg.genericPRG.randCore)
+//@ loop 1 assigns a[:], ghost(prg)
 
 // ---------------------------------------------------------------------------------------------
 // DKG common part
